@@ -55,6 +55,45 @@ def is_packet_fn(fn, fl):
         return False
 
 
+def accept_supersedes_both_kinds(run):
+    """The acceptor has two slots for ONE kind of operation (accept into a caller's socket / accept returning a socket).
+    Every public async_accept overload takes the outstanding handler out of BOTH before it stores the new one: a take
+    (std::exchange / move out of the slot, or a call to an acceptor member that does it) that lies before the store and is
+    conditional on nothing but the slot itself being occupied."""
+    fx = run.fx
+    A = 'sim::asio::ip::tcp::acceptor'
+    SL = (A + '::m_accept_handler', A + '::m_accept_handler2')
+    run.clause('R6-SUPERSEDE an accept of either flavour supersedes an outstanding accept of either flavour: each async_accept overload empties both accept slots before it parks the new handler')
+    n = 0
+    def takes_in(g, slot):
+        return [a.site for a in q.field_accesses(g, {slot}) if a.kind in ('exchange', 'move')]
+    for f in [g for g in fx.repo_functions() if g.norm == A + '::async_accept' and g.d.get('access') == 'public']:
+        run.touch(f)
+        stores = [a for a in q.field_accesses(f, set(SL)) if a.kind == 'assign' and 'nullptr' not in q.render(f, a.site)]
+        for st in stores:
+            for slot in SL:
+                n += 1
+                sn = slot.split('::')[-1]
+                cands = list(takes_in(f, slot))
+                for c in f.calls():
+                    for g in (fx.by_usr(c.get('usr')) if c.get('usr') else []) or []:
+                        if g.cls == A and g.norm != f.norm and takes_in(g, slot):
+                            cands.append(c)
+                            break
+                ok = False
+                bs = f.cfg.node_block(st.site)
+                for t in cands:
+                    bt = f.cfg.node_block(t)
+                    before = q.precedes(f, t, st.site) or (bt != bs and f.cfg._reaches(bt, bs) and not f.cfg._reaches(bs, bt))
+                    only_self = all(q.render(f, a_).replace('this->', '') in (sn, sn + '.operator bool()', '(bool)' + sn) and p_ for a_, p_ in q.guards_at(f, t))
+                    ok = ok or (before and only_self)
+                run.check(ok, 'R6-SUPERSEDE', 'accept-supersedes-both-kinds', '%s %s: %s taken before %s' % (f.norm, f.d.get('sig', '')[:40], sn, q.render(f, st.site)[:40]), f.loc(st.site),
+                          'this async_accept parks its handler without taking an outstanding handler out of %s: an accept of the other flavour stays parked next to the new one - it is not aborted with operation_aborted, it completes (with a socket that was never connected) when the next connection arrives, and the new accept never does' % sn,
+                          'std::exchange(%s, nullptr) under `if (%s)` before the store' % (sn, sn))
+    if n < 6:
+        run.broke('acceptor::async_accept: %d (overload, slot) pairs found, 6 confirmed by hand (3 overloads x 2 slots)' % n)
+
+
 def check(run):
     fx = run.fx
     fns = core_fns(fx)
@@ -225,6 +264,7 @@ def check(run):
                     run.violation('R6-SUPERSEDE', s, construct, f.loc(),
                                   'public function stores into / clears %s without first aborting an outstanding handler: a second operation of the same kind silently discards the first handler' % s)
     run.floor('R6-DISCARD', 21)
+    accept_supersedes_both_kinds(run)
 
     # ---- D/E: teardown ---------------------------------------------------
     run.clause('R6-ABORT at the exit of cancel/close/destructor every slot of the class is empty, and those paths bind operation_aborted')
